@@ -44,6 +44,13 @@
     `conc_quiescent_validate_passes` at the quiescent end of every interleaving in which every
     call returned.
 
+  * `conc_quiescent_with_tree_changes` / `conc_quiescent_with_tree_changes_fast_total` — the same with
+    `change_tree` calls (class changes, `Offline`) among the concurrent calls: every quiescent
+    state satisfies the sequential invariant for hidden frames `H' ≥ H` (what the `Offline` calls
+    took out of the counters), so fast total + hidden = exact total again (`Proofs/ConcChange.lean`:
+    taking a tree offline is a legal transition whose frames move to the ghost of the caller).
+    `Online` cannot be added: K3.
+
   * `k3_online_race_overreports` — **refutation** (known finding K3) of the concurrent clause for
     histories with tree changes: a free into an offline tree racing with `change_tree(Online)`
     leaves the tree counter one block above the free frames at the quiescent end.
@@ -61,6 +68,7 @@ import LLFreeV.Proofs.FastTotal
 import LLFreeV.Proofs.Validate
 import LLFreeV.Proofs.LowerQuery
 import LLFreeV.Proofs.ConcUpperThreads
+import LLFreeV.Proofs.ConcChange
 namespace LLFree.C04
 open LLFree Prog
 
@@ -252,5 +260,26 @@ theorem k3_online_race_overreports :
     (concRun [0, 0, 0, 0, 0, 1, 1, 1, 1, 1, 0, 0, 0] (mK3, thsK3)).1.trees[1]? = some ⟨64, false, 0⟩ ∧
     (concRun [0, 0, 0, 0, 0, 1, 1, 1, 1, 1, 0, 0, 0] (mK3, thsK3)).1.huge[1]? = some 63 := by
   decide
+
+/-- **Quiescent end of every interleaving with concurrent tree changes** (`change_tree` with a
+    class change and/or `Offline`, by id or by search, among get/put/drain of any number of
+    threads): the sequential upper invariant holds for hidden frames `H'` that only grew. -/
+theorem conc_quiescent_with_tree_changes (c : Cfg) (ok : CfgOk c) (H : Nat → Nat) (m : Mem) (inv : UpperInv0 c H m)
+    (n : Nat) (cmds : Nat → List CCmd) (hvalid : ∀ k, ∀ x ∈ cmds k, x.valid c) (sched : List Nat) (hsched : ∀ k ∈ sched, k < n)
+    (hdone : ∀ k, k < n → ∃ held, ((concRun sched (m, fun k => Th.at (runUC c (cmds k) ⟨[], []⟩))).2 k).step
+      (concRun sched (m, fun k => Th.at (runUC c (cmds k) ⟨[], []⟩))).1 = .done held) :
+    ∃ H', (∀ i, H i ≤ H' i) ∧ UpperInv0 c H' (concRun sched (m, fun k => Th.at (runUC c (cmds k) ⟨[], []⟩))).1 :=
+  upper_conc_quiescent_change ok H m inv n cmds hvalid sched hsched hdone
+
+/-- … so there, too, the fast total plus the hidden frames is the exact total -/
+theorem conc_quiescent_with_tree_changes_fast_total (c : Cfg) (ok : CfgOk c) (H : Nat → Nat) (m : Mem) (inv : UpperInv0 c H m)
+    (n : Nat) (cmds : Nat → List CCmd) (hvalid : ∀ k, ∀ x ∈ cmds k, x.valid c) (sched : List Nat) (hsched : ∀ k ∈ sched, k < n)
+    (hdone : ∀ k, k < n → ∃ held, ((concRun sched (m, fun k => Th.at (runUC c (cmds k) ⟨[], []⟩))).2 k).step
+      (concRun sched (m, fun k => Th.at (runUC c (cmds k) ⟨[], []⟩))).1 = .done held) :
+    let m' := (concRun sched (m, fun k => Th.at (runUC c (cmds k) ⟨[], []⟩))).1
+    ∃ H', (∀ i, H i ≤ H' i) ∧
+      Runs m' (treeStats c) (fun s m'' => m' = m'' ∧ s.freeFrames + blockSum H' c.ntrees = m'.freeTotal c.geom c.ntrees) := by
+  obtain ⟨H', hle, hinv⟩ := upper_conc_quiescent_change ok H m inv n cmds hvalid sched hsched hdone
+  exact ⟨H', hle, fast_total_exact c H' ok _ hinv⟩
 
 end LLFree.C04
